@@ -21,6 +21,7 @@ import (
 	"fmt"
 	"github.com/echovault/sugardb/internal"
 	"github.com/echovault/sugardb/internal/clock"
+	"github.com/echovault/sugardb/verifhook"
 	"io"
 	"io/fs"
 	"log"
@@ -241,6 +242,7 @@ func (engine *Engine) TakeSnapshot() error {
 		return err
 	}
 
+	verifhook.Point("snap.begin")
 	// os.Create will replace the old manifest file
 	mf, err = os.Create(path.Join(dirname, "manifest.bin"))
 	if err != nil {
@@ -258,10 +260,12 @@ func (engine *Engine) TakeSnapshot() error {
 		log.Println(err)
 		return err
 	}
+	verifhook.Point("snap.manifest.created")
 	if _, err = mf.Write(mo); err != nil {
 		log.Println(err)
 		return err
 	}
+	verifhook.Point("snap.manifest.written")
 	if err = mf.Sync(); err != nil {
 		log.Println(err)
 	}
@@ -269,6 +273,7 @@ func (engine *Engine) TakeSnapshot() error {
 		log.Println(err)
 		return err
 	}
+	verifhook.Point("snap.manifest.closed")
 
 	// Create snapshot directory
 	dirname = path.Join(engine.directory, "snapshots", fmt.Sprintf("%d", msec))
@@ -276,6 +281,7 @@ func (engine *Engine) TakeSnapshot() error {
 		return err
 	}
 
+	verifhook.Point("snap.dir.created")
 	// Create snapshot file
 	f, err := os.OpenFile(path.Join(dirname, "state.bin"), os.O_WRONLY|os.O_CREATE, os.ModePerm)
 	if err != nil {
@@ -288,13 +294,16 @@ func (engine *Engine) TakeSnapshot() error {
 		}
 	}()
 
+	verifhook.Point("snap.state.created")
 	// Write state to file
 	if _, err = f.Write(out); err != nil {
 		return err
 	}
+	verifhook.Point("snap.state.written")
 	if err = f.Sync(); err != nil {
 		log.Println(err)
 	}
+	verifhook.Point("snap.state.synced")
 
 	// Set the latest snapshot in unix milliseconds
 	engine.setLatestSnapshotTimeFunc(msec)
